@@ -107,6 +107,20 @@ CLAIMS = {
             "memos and must be unchanged; Observe steps compare memoised str/len/s/width/repr with views rebuilt from fresh "
             "runs; in-place edit attempts must raise; modelled operations must give the model's cells on shared, cache-warm operands.",
             TRUST, "5/C13"),
+    "C03": ("TLA+ key-decoder spec (KeyDecoder.tla: RFC 3629 UTF-8, prefix set recomputed from the extracted tables, Allowed "
+            "outcome sets): TLC model-checks the decoder state machine on the extracted tables (MC_KeyDecoder) and validates "
+            "recorded decision-tree nodes, streams and scalar values of the real get_key / Input.find_key (KeyTrace.tla)",
+            "Every node of the ESC subtree and of the UTF-8 subtrees (sampled below depth 2 in quick) x every next byte x both "
+            "'full' situations x 3 modes x 3 encodings is asked of the real get_key and compared with the set of outcomes the "
+            "statement allows; two-key streams are pushed through Input's own find_key; every scalar value (sampled in quick) "
+            "is fed byte by byte.",
+            TRUST + "Key tables are extracted from the working tree (they define 'recognised'); a frozen copy is not used.", "5/C03"),
+    "C20": ("TLA+ key-decoder spec (KeyDecoder.tla/KeyTrace.tla: ModesCutAtSamePlaces, BytesNamingReturnsTheBytes, curses subset, "
+            "ConfigNameNeverProduced): TLC design check on extracted tables + trace validation of real get_key vectors, streams "
+            "and keymap lookups",
+            "The C03 tree and streams judged for mode consistency, both tables entry by entry, every valid configuration key "
+            "name checked against the names the decoder can produce.",
+            TRUST + "Invalid configuration names are recorded but not judged (the statement promises nothing for them).", "5/C20"),
 }
 
 NOT_BUILT = "check not built yet at this commit (planned with the same TLA+ technique, see DESIGN.md section 5)"
